@@ -121,7 +121,7 @@ def run(ctx):
         kind = rng.choice(["BTree", "TreeSet", "Bucket", "Set", "BTree"])
         fn = rng.choice(ALL_FAMS)
         sz = rng.choice(SIZES)
-        mode = rng.choice({"O": ["none-int", "str", "int"]}.get(fn[0], [None, "extreme"] if fn != "fs" else [None]))
+        mode = rng.choice({"O": ["none-int", "str", "int"]}.get(fn[0], [None, "extreme"]))
         u = rng.choice([3, 10, 30])
         calls = gen_history(rng, kind, u, rng.choice([0, 3, 12, 40]), avoid0=(mode == "none-int"))
         calls = [c for c in calls if c[0] not in ("keys", "items")]
